@@ -101,7 +101,9 @@ def run(tier, seed):
                  "bounds proves every access to an object of known extent in the stream, reader, MacBinary, decoder-wrapper, header and CLI units "
                  "(including the inductive invariant leadin_len <= 24 of the lead-in scan and the (pointer, length) contracts of the read "
                  "functions); available-facts rules show that extended-header decoders run only with data_len >= min_len, that a reallocated "
-                 "header is published before any return, that released fields are cleared before reuse, that the header is freed only at "
+                 "header is published before any return, that a header linked into the reader's directory stack or deferred-symlink list holds a reference of its own on every path, "
+                 "that the extended-header dispatcher - evaluated for all 256 type bytes against the registry's own min_len column - never runs a decoder on fewer bytes, "
+                 "that released fields are cleared before reuse, that the header is freed only at "
                  "reference count zero, and that nullable header strings are used only under a non-NULL fact. Accesses to objects of unknown "
                  "extent (C strings, libc objects, the realloc'ed raw header data) are counted by category and NOT proven; for raw header data "
                  "the guards are shown to be in force (C12) but their arithmetic sufficiency is not decided.")
